@@ -1,4 +1,5 @@
 """E-CFG: build-configuration matrix and sibling agreement (DESIGN 3.9)"""
+import re
 import ecache
 import ecanon
 import eevent
@@ -83,3 +84,54 @@ def run_config(ctx, config, deep=True):
         eevent.check_manager(ctx, F, crate, rule="E-EVENT" + tag)
         eevent.check_manager_data_forwarding(ctx, F, rule="E-EVENT.forward" + tag)
     return F
+
+
+def check_slab_data_type(ctx, F, rule="E-CFG.slabtype"):
+    """arcslab handles (`IntHandle`, `ExtHandle`, `ArcSlabRef`) carry the slab's *data type* as a type parameter and use
+    it to locate the slab header (item counter, free list) from a slot address.  Every handle type that occurs in the
+    pointer manager must name the same data type as the `ArcSlab` itself (`StoreInner`); a handle rebuilt with another
+    type (e.g. `Manager`) computes header offsets that only coincide for some sizes of the manager data."""
+    import collections
+    kinds = collections.defaultdict(collections.Counter)
+
+    def top_args(t):
+        i = t.index("<")
+        depth, args, cur = 0, [], ""
+        for ch in t[i + 1:]:
+            if ch == "<":
+                depth += 1
+            if ch == ">":
+                if depth == 0:
+                    args.append(cur.strip())
+                    break
+                depth -= 1
+            if ch == "," and depth == 0:
+                args.append(cur.strip())
+                cur = ""
+                continue
+            cur += ch
+        return args
+    n = 0
+    for fid, m in F.mir.items():
+        if not fid.startswith("oxidd_manager_pointer::"):
+            continue
+        for l in m["locals"]:
+            ty = l.get("ty") or ""
+            for mm in re.finditer(r"arcslab::(IntHandle|ExtHandle|ArcSlab|ArcSlabRef)<", ty):
+                a = [x for x in top_args(ty[mm.start():]) if not x.startswith("'")]
+                if len(a) > 1:
+                    head = a[1].split("<", 1)[0]
+                    kinds[mm.group(1)][head] += 1
+                    n += 1
+    slab = set(kinds.get("ArcSlab", {}))
+    if not ctx.anchor(rule, "ArcSlab data type of the pointer manager", len(slab) == 1):
+        return n
+    want = next(iter(slab))
+    for k in ("IntHandle", "ExtHandle", "ArcSlabRef"):
+        others = {h: c for h, c in kinds.get(k, {}).items() if h != want}
+        ctx.ob(rule, "%s:%s" % (rule, k), not others and bool(kinds.get(k)),
+               "arcslab::%s occurs with data type %s in the pointer manager, the slab is an ArcSlab<_, %s, _>: %s"
+               % (k, sorted(kinds.get(k, {})), want,
+                  "agree" if not others else "a handle of another data type locates the slab header at the wrong offset when it "
+                  "frees a slot (memory corruption / leaked slots for some manager-data sizes)"))
+    return n
